@@ -6,9 +6,9 @@ HOOKS = {"guard": "verif",
          "source_commits": [], "add_only": True}
 ENGINES = [
     {"name": "tlc", "path": "/verif/spec", "kind_free_text": "TLA+ specification (WitnessCore, Witness, ...) checked, used as generator (every transition emitted as JSON) and as judge of recorded traces (Trace_*.tla) by TLC 1.8.0",
-     "serves_properties": ["C01", "C02", "C03", "C04", "C08", "C09", "C20"]},
+     "serves_properties": ["C01", "C02", "C03", "C04", "C08", "C09", "C12", "C16", "C20"]},
     {"name": "driver", "path": "/verif/harness", "kind_free_text": "Go harness (own module with replace => /repo): concretiser, independent RFC 6962 / signed-note reference, drivers that execute TLC-generated behaviours against the real code and record ndjson observations",
-     "serves_properties": ["C01", "C02", "C03", "C04", "C08", "C09", "C20"]},
+     "serves_properties": ["C01", "C02", "C03", "C04", "C08", "C09", "C12", "C16", "C20"]},
 ]
 NOTES = "See DESIGN.md. Exit codes of bin/check: 0 held (KNOWN-FINDING lines allowed), 1 VIOLATION, 2 inconclusive (build/tool failure, vacuity, harness self-disagreement)."
 NOT_APPLICABLE = {}
@@ -28,5 +28,7 @@ CHECKS = {
     "C04": seq("Every accept transition x note shapes x witness key sets executed; the harness re-verifies each returned note with its own ed25519 code and TLC evaluates AcceptShape on the result; forced one-second waits expose stale cosignatures.", "DESIGN.md section 5 C04"),
     "C08": seq("Shortest path to every reachable state of the bounded model (and of the unguarded design variant) plus random walks, each followed by honest probes computed from the observed state; TLC evaluates HonestProgress. The size-0 wedge is a recorded known finding.", "DESIGN.md section 5 C08"),
     "C09": seq("TLC proves Decide = SpecVerdict on C09's domain of the bounded one-step model (all (stored, submitted, old) cubed x roots x proofs) and every such transition is executed on the real witness; TLC evaluates FirstMatch on the observed verdict and returned bytes, with the reference RFC 6962 verifier as third opinion on the proof bit.", "DESIGN.md section 5 C09"),
+    "C12": seq("TLC checks Isolation on the multi-log model (logs sharing a key); every transition is executed and judged on per-log byte snapshots; TLC-generated interleavings are compared with each log's history alone (AloneEqualsInterleaved). The identity half of C12 (same id on every interface, duplicates refused at start-up) is judged by the start-up trace spec.", "DESIGN.md section 5 C12"),
+    "C16": seq("Histories over 1..3 logs with the registered mux handlers and the bundled client in the loop; TLC evaluates ReadExact / LogListExact / OddId (17 odd-id classes, before and after redirects) on the observed responses.", "DESIGN.md section 5 C16"),
     "C20": seq("Decision-table transitions and random multi-log histories executed in a dedicated process with a recording MetricFactory; TLC evaluates CountersTrue on counters read after every step.", "DESIGN.md section 5 C20"),
 }
